@@ -222,6 +222,20 @@ CHECKS['C02'] = dict(
     technique="Coq proof of set-invariance of aggregate values and complement laws + compile model tied modulo alpha-renaming + exhaustive reading/rule/clingo comparison",
     design="6.C02")
 
+CHECKS['C04'] = dict(
+    text="Cnl/Preference.v: the preference forms (with aggregate - global or per room -, with variable, with clause, with comparison) x {is minimized, "
+         "is maximized, as little / as much as possible} x {low, medium, high, priority N}; the READING (an interpretation is optimal iff it satisfies "
+         "the hard part and no other one is lexicographically better by priority on the stated quantities); the compile model (weak constraints: body, "
+         "sign, weight, level, tuple - from the generated PRIORITY_LEVEL / direction tables) and gringo/clasp's semantics of the emitted weak "
+         "constraints (sets of (weight, tuple) per level, lexicographic by level). Theorems over the regenerated tables: C04_levels_ordered, "
+         "C04_direction_signs, C04_as_much_as_possible_refuted (known finding). Tie: the model prints the implementation's weak constraints modulo "
+         "renaming of variables; oracle: clingo --opt-mode=optN (optimality proven) on the IMPLEMENTATION's program versus the reading and versus the "
+         "model's weak-constraint semantics, exhaustively over all 2^(n*m) interpretations.",
+    note="Trusted: Coq kernel; clingo/clasp as external semantics; renaming preserves meaning; the reading (Cnl/Preference.v: optimal_in, quantity) is the "
+         "specification. Several preferences are generated with pairwise distinct priorities (the property does not say how equal priorities combine).",
+    technique="Coq theorems over regenerated priority/direction tables + compile model tied modulo alpha-renaming + exhaustive optimal-set comparison with clingo optN",
+    design="6.C04")
+
 NOT_YET = {}
 
 
